@@ -27,7 +27,11 @@ def gen(quick: bool) -> str:
         pre = " and ".join(f"0 <= {e} <= {edge_hi}" for e in es)
         inc = "[" + ", ".join("[" + ", ".join(f"e{i}{j}" for j in range(n)) + "]" for i in range(n)) + "]"
         incR = "[" + ", ".join(rs) + "]" if with_incR else "[" + ", ".join(["False"] * n) + "]"
-        call = f"{n}, {inc}, {incR}, {list(flags)!r}, {rt}, {rflag}, {variant!r}"
+        # every second condition: the flagged templates already carry the flag before the analysis (re-analysis / pre-set flag)
+        preset = tuple(bool(f) and (counter[0] % 2 == 0) for f in flags)
+        if any(preset):
+            tag = tag + "_pre"
+        call = f"{n}, {inc}, {incR}, {list(flags)!r}, {rt}, {rflag}, {variant!r}, {preset!r}"
         out.append(f'''
 def g_{tag}({params}) -> bool:
     """
